@@ -440,3 +440,43 @@ def check_C20(tier: str, seed: int) -> int:
                      "the third clause (dispatcher) is a monitor on the real Dispatcher's output here; its theorem is Hive.C12.dispatch_available",
                      "times of day have second resolution (HH:MM:SS, integer clock)"]
     return v.finish()
+
+
+COSIM_BUDGET = {"quick": 64, "thorough": 1600}
+
+
+@register("C15")
+def check_C15(tier: str, seed: int) -> int:
+    v = fw.Verdict("C15", tier, seed, "proof")
+    ps = fw.ProofStatus("C15", ["Properties.C15"])
+    cl = layers.cosim_layer(seed, COSIM_BUDGET[tier])
+    ok1 = use_simple_layer(v, "C15", cl, "cosim", ["C15"])
+    if (not ps.ok or not ok1) and not v.violations:
+        big = layers.cosim_layer(seed + 7919, COSIM_BUDGET[tier] * 4)
+        use_simple_layer(v, "C15", big, "cosim", ["C15"])
+        v.notes.append(f"escalated search: {big['cases']} further scenarios")
+    if not ps.ok:
+        v.broken(f"proof obligation for C15: {ps.failing_obligation()}", {"theorem_or_build": ps.failing_obligation()})
+    cov = fw.proof_coverage(ps)
+    cov["evaluations"] = cl["steps"]
+    cov["distinct_nontrivial"] = len(cl["shapes"])
+    cov["rule"] = ("whole runs of the packaged denver_downtown scenarios (plain, fleets, constrained charging; default Dispatcher + ChargingFleetManager + drivers; haversine network), "
+                   "start time in {0h,6h,8h,8h+17s,17h,23h}, step length in {30,60,120,300}, 20-160 steps, end time a multiple of dt away or 1 / dt/2 / dt-1 seconds short of it, "
+                   "lazy and eager file reading, timeout in {600,120,dt}: each scenario is loaded afresh four times and advanced by 2-4 successive hive_cosim.crank calls over a "
+                   "random split (zero-length calls included), by one crank call, by LocalSimulationRunner.run and by repeated LocalSimulationRunner.step until it refuses; final "
+                   "states (entities and all eight indexes) and the complete event streams must be equal (random uuid4 instance/session ids renamed by first appearance); the clock "
+                   "after every call, the number of steps before refusal and the runner's final time are checked by Lean against Hive.Cycle.runnerSteps / crank_clock; "
+                   "evaluations = simulation steps executed; distinct_nontrivial = distinct (scenario, lazy, dt, divisible interval, #calls, has zero-length call) tuples")
+    cov["samples"] = [cl["sample"]]
+    cov["scenarios"] = cl["cases"]
+    cov["events_compared"] = cl["rows"]
+    cov["trusted_base"] = cov["trusted_base"] + [
+        "the step function itself is a parameter here: the theorems hold for every instruction generator state machine; that the real apply_update keeps no state outside the payload "
+        "is what the split runs decide",
+        "the packaged OSM road network cannot be loaded by the installed networkx (KeyError 'edges', also the cause of the 8 baseline test failures); scenarios run on the haversine network"]
+    v.coverage = cov
+    v.assumptions = ["positive step length (range() raises on 0 in the implementation)",
+                     "'covers exactly the interval' is read as: the steps taken are exactly those that begin before the end time (for an interval that is not a multiple of dt "
+                     "the last step ends after the end time; run and repeated step agree on this)",
+                     "uuid4 instance ids and session ids are compared up to renaming"]
+    return v.finish()
